@@ -51,7 +51,7 @@ def _run(args):
 
 
 CFGS_Q = [dict(name="fast", dt=200), dict(name="slow", dt=100), dict(name="slow-nopersist", dt=100, persistence=False)]
-CFGS_T = [dict(name="fast-rich", dt=200, rich=True), dict(name="slow-rich", dt=100, rich=True), dict(name="slow-nopersist", dt=100, persistence=False), dict(name="slower", dt=60)]
+CFGS_T = [dict(name="fast-rich", dt=200, rich=True), dict(name="slow", dt=100), dict(name="slow-nopersist", dt=100, persistence=False), dict(name="slower", dt=60)]
 
 
 def run(tier):
